@@ -23,6 +23,14 @@ package c16
 //     later either) and the calls next to the last ones (same rank, rank + 1,
 //     rank - 1, the same table) are made again: what the caller did to ITS
 //     slices must not show in later results.
+//     The caller also APPENDS to what it was given (append is how a half row
+//     of Coeffs is completed by symmetry and how a set is extended): to every
+//     held result at every checkpoint, to the rows and the outer slice of a
+//     table right after it was returned, to an earlier result between two
+//     calls.  An append writes into the spare capacity of the slice if it has
+//     any; whether a result has spare capacity is not judged, but what the
+//     caller appends to one result must not show in another one nor in the
+//     results of later calls.
 //  2. the order of the calls as a dimension of the workload (stateUnits):
 //     ascending, descending, repeated, zigzag, strided, random sweeps over
 //     windows of consecutive ranks at small ranks, across the C(l,k)
@@ -56,6 +64,8 @@ type heldRes struct {
 	mark      int
 	dead      bool // a violation has been recorded for it: not judged again
 	cheap     bool // calling Unrank with a neighbouring rank costs no more than maxProbeSteps loop steps
+	amark     int  // the value the caller appended to it (0: nothing appended with a marker yet)
+	appended  int  // number of values the caller appended to it
 }
 
 // heldTab is one Coeffs result: the outer slice and its rows.
@@ -66,6 +76,7 @@ type heldTab struct {
 	at     int
 	marked bool
 	dead   bool
+	grown  [][]int // the outer slice after the caller appended a row of its own to it
 }
 
 type ledger struct {
@@ -74,6 +85,7 @@ type ledger struct {
 	held     []*heldRes // Unrank results and table rows, in the order of the calls
 	tabs     []*heldTab
 	byMark   map[int]*heldRes
+	byAppend map[int]*heldRes // marker values the caller appended to a result -> that result
 	marks    int
 	lastHeld *heldRes // the result of the last Unrank call if it was judged exact
 	closing  bool
@@ -251,6 +263,13 @@ func (m *mon) recheck(h *heldRes) bool {
 		detail["note"] = "the caller had overwritten this result with a marker of its own (it owns the slice)"
 		what += " (overwritten by the caller with " + fmt.Sprint(h.mark) + ")"
 	}
+	// does it read what the caller appended to another result?  then the append went into this one
+	for _, v := range h.res {
+		if o, ok := m.byAppend[v]; ok && o != h {
+			m.appendShowsIn(h, o, fmt.Sprintf("%d (%d times)", o.amark, o.appended))
+			return false
+		}
+	}
 	// does it read the marker of another result?  then the two share memory
 	for _, v := range h.res {
 		if o, ok := m.byMark[v]; ok && o != h {
@@ -265,6 +284,135 @@ func (m *mon) recheck(h *heldRes) bool {
 		what+" reads "+seqString(h.res)+" after the later calls "+fmt.Sprint(m.callsSince(h.at)),
 		seqString(h.want)+" (a returned result is not written to by later calls)")
 	return false
+}
+
+// appendShowsIn records that h does not read what it has to read any more after the
+// caller appended to ANOTHER result o (h is not judged again).
+func (m *mon) appendShowsIn(h, o *heldRes, appended string) {
+	h.dead = true
+	oname := recString(callRec{o.api, o.args})
+	detail := map[string]interface{}{"api": h.api, "result_of": recString(callRec{h.api, h.args}), "unit": m.unitName,
+		"returned_and_judged_as": h.want, "the_caller_appended_to_the_result_of": oname, "appended": appended, "calls_after_it": m.callsSince(h.at)}
+	m.c.Violation(h.api+"|append-to-another-result-writes-into-it|"+h.args+"|"+o.api+":"+o.args, detail,
+		"the slice returned by "+recString(callRec{h.api, h.args})+" reads "+seqString(h.res)+" after the caller appended "+appended+" to the slice returned by "+oname,
+		seqString(h.want)+" (a result belongs to the caller, who may append to it: that does not write into another result)")
+}
+
+// grow lets the caller append to a result it was given: cnt copies of a marker
+// value of this result (cnt <= 0: a number that cycles with salt through 1, 2,
+// len, len+3).  Whether the append finds spare capacity is not judged.
+func (m *mon) grow(h *heldRes, cnt, salt int) {
+	if h == nil || h.dead {
+		return
+	}
+	if h.amark == 0 {
+		m.marks++
+		h.amark = -1000000 - 1000*m.marks
+		if m.byAppend == nil {
+			m.byAppend = map[int]*heldRes{}
+		}
+		m.byAppend[h.amark] = h
+	}
+	if cnt <= 0 {
+		cnt = []int{1, 2, len(h.res), len(h.res) + 3}[salt&3]
+		if cnt == 0 {
+			cnt = 1
+		}
+	}
+	if cap(h.res) > len(h.res) {
+		m.c.Obs("state:append_found_spare_capacity_in_the_result(unjudged)", 1)
+	}
+	g := h.res
+	for i := 0; i < cnt; i++ {
+		g = append(g, h.amark)
+	}
+	h.appended += cnt
+	sink = g
+}
+
+var sink []int // what append returned (the caller goes on using it)
+
+// rereadAll reads every live held result and table again (no new evaluation is counted).
+func (m *mon) rereadAll() {
+	for _, h := range m.held {
+		if h.k >= 0 && !h.dead {
+			m.recheck(h)
+		}
+	}
+	for _, t := range m.tabs {
+		if !t.dead && m.recheckTab(t) {
+			for _, h := range t.rows {
+				if !m.recheck(h) {
+					t.dead = true
+					break
+				}
+			}
+		}
+	}
+}
+
+// growEarlier: between two calls the caller appends to a result it was given
+// some calls ago (later results exist by then), and reads the recent ones again.
+func (m *mon) growEarlier(back, salt int) {
+	i := len(m.held) - back
+	if i < 0 {
+		return
+	}
+	h := m.held[i]
+	if h.dead || h.marked || h.appended != 0 {
+		return
+	}
+	m.grow(h, 0, salt)
+	m.logCall("caller", "appends to the result of "+recString(callRec{h.api, h.args}))
+	m.c.Obs("state:caller_appends_to_an_earlier_result_between_calls", 1)
+	n := 0
+	for j := len(m.held) - 1; j >= 0 && n < 8; j-- {
+		if m.held[j] != h && !m.held[j].dead {
+			n++
+			m.c.Obs("state:results_read_again_after_the_caller_appended_to_another", 1)
+			m.recheck(m.held[j])
+		}
+	}
+}
+
+// completeRows: the natural use of a Coeffs table, which holds only the half
+// rows k <= m/2: the caller completes row m by symmetry, appending C(m,m-k)
+// for k = m/2+1 .. m to the slice it was given.  After every row the other rows
+// of the table are read again: they are Pascal rows whatever the caller appended.
+func (m *mon) completeRows(t *heldTab, descending bool) bool {
+	c := m.c
+	for x := range t.rows {
+		mm := x
+		if descending {
+			mm = len(t.rows) - 1 - x
+		}
+		h := t.rows[mm]
+		if h.dead {
+			continue
+		}
+		row := h.res
+		for k := mm/2 + 1; k <= mm; k++ {
+			row = append(row, row[mm-k])
+		}
+		h.appended += len(row) - len(h.res)
+		sink = row
+		c.Obs("state:half_rows_completed_by_appending", 1)
+		for _, o := range t.rows {
+			if !o.dead && !sameInts(o.res, o.want) {
+				if o == h {
+					// append never changes the elements below len of its own argument
+					m.recheck(o)
+				} else {
+					m.appendShowsIn(o, h, fmt.Sprintf("%v (the second half of row %d)", row[len(h.res):], mm))
+				}
+				t.dead = true
+				return false
+			}
+		}
+	}
+	m.logCall("caller", "completes every half row of the table returned by Coeffs("+is(t.n)+") by appending to it")
+	c.Obs("state:tables_with_all_rows_completed_by_appending_and_the_other_rows_read_again", 1)
+	return true
 }
 
 // recheckTab reads the outer slice of a held table again (its rows are on m.held).
@@ -354,6 +502,32 @@ func (m *mon) checkpoint() {
 	m.closing = true
 	defer func() { m.closing = false }()
 	m.recheckAll()
+	// the caller appends to every result it holds (rows of tables and the outer slices included); every one is read again
+	grownNow := 0
+	for i, h := range m.held {
+		if h.dead || h.marked || h.appended != 0 {
+			continue
+		}
+		m.grow(h, 0, i)
+		grownNow++
+	}
+	for _, t := range m.tabs {
+		if t.dead || t.marked || t.grown != nil {
+			continue
+		}
+		m.marks++
+		t.grown = append(t.res, []int{-1000000 - 1000*m.marks})
+		c.Obs("state:caller_appended_a_row_to_the_outer_slice_of_a_table", 1)
+		grownNow++
+	}
+	if grownNow > 0 {
+		m.logCall("caller", fmt.Sprintf("appends to %d results it holds, a marker of its own each", grownNow))
+		c.Obs("state:caller_appended_to_results_and_all_were_read_again", grownNow)
+		m.rereadAll()
+		if c.Stopped() {
+			return
+		}
+	}
 	if m.byMark == nil {
 		m.byMark = map[int]*heldRes{}
 	}
@@ -432,6 +606,9 @@ func (m *mon) checkpoint() {
 		m.coeffs(lastT.n)
 		if lastT.n > 0 {
 			m.coeffs(lastT.n - 1)
+		}
+		if lastT.n < 66 {
+			m.coeffs(lastT.n + 1) // the row the caller put behind the outer slice is not the next row of anything
 		}
 	}
 	m.recheckAll()
@@ -548,6 +725,27 @@ func (m *mon) coeffs(n int) bool {
 	}
 	m.tabs = append(m.tabs, t)
 	c.Obs("state:tables_held_until_end_of_unit", 1)
+	if m.closing {
+		return true // the probe calls of a checkpoint: left alone, the next checkpoint appends to them
+	}
+	// what the caller does with the table before anything else is called (cycles from table to table)
+	switch len(m.tabs) % 4 {
+	case 1:
+		return m.completeRows(t, false)
+	case 2:
+		return m.completeRows(t, true)
+	case 3:
+		for i, h := range t.rows {
+			m.grow(h, 0, i)
+		}
+		m.marks++
+		t.grown = append(t.res, []int{-1000000 - 1000*m.marks})
+		m.logCall("caller", "appends to every row and to the outer slice of the table returned by Coeffs("+is(n)+")")
+		c.Obs("state:caller_appended_a_row_to_the_outer_slice_of_a_table", 1)
+		c.Obs("state:caller_appended_to_results_and_all_were_read_again", len(t.rows))
+		m.recheckTabFull(t)
+		return !t.dead
+	}
 	return true
 }
 
@@ -727,6 +925,9 @@ func (m *mon) runSeq(label string, steps []stStep, stepLimit int64) {
 			c.Obs("state:Coeffs_between_Unrank_calls", 1)
 		}
 		m.edit(h, st.edit)
+		if i%3 == 2 {
+			m.growEarlier(2+i%2, i/3)
+		}
 	}
 	if done > 0 {
 		c.Obs("state:sequences", 1)
